@@ -1,3 +1,26 @@
+// ---- deserialisation side (trusted model of serde's MapAccess protocol) --------------------------------------------
+// The input map is a sequence of entries (key, value item) in the order the format presents them.  A key is an unsigned
+// integer, a text string, a byte string or something else; a value item is opaque and decodes, for a target type V, to
+// `de_val::<V>(item)`.  `sound()` says that the format itself has nothing to complain about (well-formed input, every value
+// item decodes for the type it is asked for): then `next_key` fails exactly when the key type rejects the key, and
+// `next_value` does not fail.  Which `visit_*` method a format calls for which key (integers by width, text -> visit_str,
+// bytes -> visit_bytes) is serde's protocol and is assumed: `KeyView::key_view` is what `next_key` returns, and the
+// `visit_*` methods of the key's visitor are verified against it one by one.
+pub enum DeKey { U(int), Text(Seq<char>), Bytes(Seq<u8>), Other }
+pub uninterp spec fn de_val<V>(item: int) -> V;
+// std items the expansion uses and vstd does not specify (assumed, the specification is the documented behaviour)
+pub uninterp spec fn spec_utf8(b: Seq<u8>) -> Option<Seq<char>>;
+#[verifier::external_type_specification] #[verifier::external_body] pub struct ExUtf8Error(core::str::Utf8Error);
+pub assume_specification [ core::str::from_utf8 ] (v: &[u8]) -> (r: Result<&str, core::str::Utf8Error>)
+    ensures match r { Ok(s) => spec_utf8(v@) == Some(s@), Err(_) => spec_utf8(v@) is None };
+pub assume_specification<T, E> [ Result::<T, E>::unwrap_or ] (r: Result<T, E>, d: T) -> (o: T)
+    ensures o == (match r { Ok(v) => v, Err(_) => d });
+pub trait VxDefault: Sized { spec fn vx_default() -> Self; }
+impl<T> VxDefault for Option<T> { open spec fn vx_default() -> Self { None } }
+#[verifier::external_body]
+pub fn vx_unwrap_or_default<T: VxDefault + Default>(o: Option<T>) -> (r: T)
+    ensures r == (match o { Some(v) => v, None => T::vx_default() })
+{ o.unwrap_or_default() }
 // ---- trusted model of serde's data model, as far as the expansion of serde_workaround! uses it (C13) ----
 // What a serializer has been told is a tree: a u8, a map with the length announced to `serialize_map` and the
 // entries handed to `serialize_entry` in call order, or the (opaque) tree of a field value, which is a function of
@@ -44,6 +67,49 @@ pub mod serde {
                 ensures r matches Ok(o) ==> out_tree(o) == SerTree::Map(self.declared(), self.entries());
         }
     }
+    pub trait Deserialize<'de>: Sized { }
+    impl<'de, T> Deserialize<'de> for T { }   // marker: every field type can be asked for (whether an item decodes is `sound()`)
+    pub mod de {
+        use super::*;
+        pub struct IgnoredAny;
+        pub trait Error: Sized {
+            fn duplicate_field(field: &'static str) -> Self;
+            fn missing_field(field: &'static str) -> Self;
+            fn vx_invalid_value() -> Self;
+        }
+        pub trait KeyView: Sized { spec fn key_view(k: DeKey) -> Option<Self>; }
+        // serde::de::Visitor: every method a visitor does not implement reports an error (serde's defaults)
+        pub trait Visitor<'de>: Sized {
+            type Value;
+            fn visit_u8<E: Error>(self, value: u8) -> Result<Self::Value, E> { Err(E::vx_invalid_value()) }
+            fn visit_u16<E: Error>(self, value: u16) -> Result<Self::Value, E> { Err(E::vx_invalid_value()) }
+            fn visit_u32<E: Error>(self, value: u32) -> Result<Self::Value, E> { Err(E::vx_invalid_value()) }
+            fn visit_u64<E: Error>(self, value: u64) -> Result<Self::Value, E> { Err(E::vx_invalid_value()) }
+            fn visit_u128<E: Error>(self, value: u128) -> Result<Self::Value, E> { Err(E::vx_invalid_value()) }
+            fn visit_str<E: Error>(self, value: &str) -> Result<Self::Value, E> { Err(E::vx_invalid_value()) }
+            fn visit_bytes<E: Error>(self, value: &[u8]) -> Result<Self::Value, E> { Err(E::vx_invalid_value()) }
+            // serde hands a visitor a map access positioned before a key
+            fn visit_map<A: MapAccess<'de>>(self, map: A) -> Result<Self::Value, A::Error> requires !map.pending() { Err(<A::Error as Error>::vx_invalid_value()) }
+        }
+        pub trait MapAccess<'de>: Sized {
+            type Error: Error;
+            spec fn rest(&self) -> Seq<(DeKey, int)>;
+            spec fn pending(&self) -> bool;
+            spec fn sound(&self) -> bool;
+            fn next_key<K: KeyView>(&mut self) -> (r: Result<Option<K>, Self::Error>)
+                requires !old(self).pending(),
+                ensures final(self).sound() == old(self).sound(), final(self).rest() == old(self).rest(),
+                    match r {
+                        Ok(Some(k)) => old(self).rest().len() > 0 && K::key_view(old(self).rest()[0].0) == Some(k) && final(self).pending(),
+                        Ok(None) => old(self).rest().len() == 0 && !final(self).pending(),
+                        Err(_) => old(self).sound() ==> (old(self).rest().len() > 0 && K::key_view(old(self).rest()[0].0) is None),
+                    };
+            fn next_value<V>(&mut self) -> (r: Result<V, Self::Error>)
+                requires old(self).pending(),
+                ensures final(self).sound() == old(self).sound(), old(self).sound() ==> r is Ok,
+                    r matches Ok(v) ==> old(self).rest().len() > 0 && v == de_val::<V>(old(self).rest()[0].1) && final(self).rest() == old(self).rest().drop_first() && !final(self).pending();
+        }
+    }
 }
 // an optional member that is present / absent: one entry under the key, or none
 pub open spec fn opt_entry<T>(k: u8, v: Option<T>) -> Seq<(SerTree, SerTree)> {
@@ -54,4 +120,12 @@ pub open spec fn entry<T>(k: u8, v: T) -> Seq<(SerTree, SerTree)> { seq![(SerTre
 pub open spec fn keys_ascending(e: Seq<(SerTree, SerTree)>) -> bool {
     &&& forall|i: int| 0 <= i < e.len() ==> (#[trigger] e[i]).0 is U8
     &&& forall|i: int, j: int| 0 <= i < j < e.len() ==> (#[trigger] e[i]).0->U8_0 < (#[trigger] e[j]).0->U8_0
+}
+
+
+// the entry that supplies member `id` among the first k entries (the last one; with `dup_free` it is the only one)
+pub open spec fn occ<K: serde::de::KeyView>(e: Seq<(DeKey, int)>, k: int, id: K) -> Option<int>
+    decreases k
+{
+    if k <= 0 { None } else if K::key_view(e[k - 1].0) == Some(id) { Some(k - 1) } else { occ(e, k - 1, id) }
 }
